@@ -515,7 +515,46 @@ class LibModel:
             outs.extend(cur)
         return outs
 
+    def dictcomp_filter(self, eng, st, e):
+        """{k: v for k, v in X.items() if k in Y}: the restriction of the dict X to the keys in Y"""
+        if len(e.generators) != 1:
+            return None
+        g = e.generators[0]
+        if not (isinstance(g.iter, ast.Call) and isinstance(g.iter.func, ast.Attribute) and g.iter.func.attr == 'items'
+                and isinstance(g.target, ast.Tuple) and len(g.target.elts) == 2 and all(isinstance(t, ast.Name) for t in g.target.elts)):
+            return None
+        kn, vn = g.target.elts[0].id, g.target.elts[1].id
+        if not (isinstance(e.key, ast.Name) and e.key.id == kn and isinstance(e.value, ast.Name) and e.value.id == vn):
+            return None
+        if len(g.ifs) != 1:
+            return None
+        c = g.ifs[0]
+        if not (isinstance(c, ast.Compare) and len(c.ops) == 1 and isinstance(c.ops[0], ast.In)
+                and isinstance(c.left, ast.Name) and c.left.id == kn):
+            return None
+        outs = []
+        for s2, x in eng.eval(g.iter.func.value, st):
+            if not isinstance(x, D):
+                return None
+            for s3, y in eng.eval(c.comparators[0], s2):
+                ids = self.key_ids(eng, s3, y)
+                if ids is None:
+                    return None
+                s3 = s3.clone()
+                outs.append((s3, eng.new_dict(s3, s3.dicts[x.ref].restrict(ids), own=True)))
+        return outs
+
+    def key_ids(self, eng, st, y):
+        if isinstance(y, D):
+            return st.dicts[y.ref].has
+        if isinstance(y, Obj) and y.kind == 'keylist':
+            return y.data['ids']
+        return None
+
     def dictcomp(self, eng, st, e):
+        r = self.dictcomp_filter(eng, st, e)
+        if r is not None:
+            return r
         sel = self._comp_items(eng, st, e)
         if sel is None:
             return None
